@@ -13,6 +13,7 @@ Proof.
   - congruence.
   - destruct (getv e v); auto.
   - rewrite <- IHb. rewrite fin_flatR. destruct (fin (start e b)); cbn [flatR]; auto. destruct (getv e v); reflexivity.
+  - destruct (getv e v1), (getv e v2); cbn [orb flatR]; congruence.
 Qed.
 
 Lemma answer_flatR e r t : flatR (answer e r t) = answer e (flatR r) t.
